@@ -8,7 +8,8 @@ ID = "C16"
 LEVEL = "exploration"
 SHARDS = {"quick": 1, "thorough": 16}
 RULE = ("case = (generated program: function or DBC hierarchy with one member kind, stacks of require/ensure/snapshot/"
-        "foreign decorators, invariants, __init__ contracts; one call per class of the hierarchy; one truth assignment "
+        "foreign decorators, invariants, __init__ contracts; one call and one attribute assignment per class of the "
+        "hierarchy; one truth assignment "
         "out of ALL 2^n for n<=6 conditions, sampled above). non-trivial = at least two conditions falsy at once, or "
         ">=2 precondition groups tried; distinct = hash(program, ops, assignment).")
 ASSUMPTIONS = ["reference interpreter transcribed from C01/C02/C03/C04/C08/C16 statements (vf/progmodel/ref.py)",
@@ -27,8 +28,19 @@ def nontrivial(case, truth, res, mask, n):
     return falsy >= 2 or any(len(c.get("bases", [])) >= 1 for c in case["program"].get("classes", [])) and falsy >= 1
 
 
-def strategy():
-    return st.one_of(D.st_function_case(DECO_KW), D.st_class_case(DECO_KW, HIER_KW), D.st_class_case(DECO_KW, HIER_KW))
+@st.composite
+def strategy(draw):
+    case = draw(st.one_of(D.st_function_case(DECO_KW), D.st_class_case(DECO_KW, HIER_KW), D.st_class_case(DECO_KW, HIER_KW)))
+    # classes with invariants: an attribute assignment from outside after the member call (before-phase, body,
+    # after-phase of the attribute-set invariants, in declaration order)
+    ops = []
+    for op in case["ops"]:
+        ops.append(op)
+    for op in list(case["ops"]):
+        if op["op"] == "new" and any(i for c in case["program"].get("classes", []) for i in c.get("invs", [])):
+            ops.append({"op": "setattr", "k": op["k"]})
+    case["ops"] = ops
+    return case
 
 
 def exclude(ctx, case, model):
